@@ -1,312 +1,224 @@
-"""C15 - weight initialisers fill tensors with the documented distribution, in place (scale / role / object-effect part)."""
+"""C15 - weight initialisers fill tensors with the documented distribution, in place (scale / role / object-effect part).
+
+All formula rules work on the paths produced by the partial evaluator (sa/peval.py): the initialisers are evaluated on a symbolic tensor
+of a given rank, calls of the samplers are intercepted, and the terms that reach each sampler parameter are compared (normal form) with
+the documented formulas.  Helper extraction, temporaries, early returns, keyword/positional spelling do not change the paths."""
 import ast
 from fractions import Fraction
 from sa.core import norm, body_walk, dotted, names_in
-from sa.cfg import CFG, facts_at
-from sa.poly import P, sqrt, TermBuilder, Unsupported
+from sa.poly import P, sqrt, as_p
+from sa.peval import PE, Opaque
 from sa.report import Incomplete
-from sa.rules_template import bind_call
 
 IMOD = 'synapgrad.nn.init'
 FILLERS = ('uniform_', 'normal_', 'constant_', 'ones_', 'zeros_')
+NP_SAMPLERS = {'numpy.random.uniform': ('low', 'high', 'size'), 'numpy.random.normal': ('loc', 'scale', 'size')}
 
 
-def local_terms(model, f, extra_atoms=None, on_call=None):
-    """forward-substitute the straight-line assignments of f into POLY terms: name -> P (single assignment locals)"""
-    env = dict(extra_atoms or {})
+def bind(sig, args, kw):
+    b = dict(zip(sig, args))
+    b.update(kw)
+    return b
 
-    def atom_of(e):
-        if isinstance(e, ast.Subscript) and isinstance(e.value, ast.Name) and e.value.id in env and not isinstance(env[e.value.id], P):
-            v = env[e.value.id]
-            k = e.slice
-            if isinstance(v, (list, tuple)) and isinstance(k, ast.Constant):
-                return v[k.value]
-            if isinstance(v, (list, tuple)) and isinstance(k, ast.Name) and isinstance(env.get(k.id), int):
-                return v[env[k.id]]
-            if isinstance(v, dict) and isinstance(k, ast.Name):
-                return P.atom('%s[%s]' % (e.value.id, k.id))
-        if isinstance(e, (ast.Attribute, ast.Subscript)):
-            return P.atom(norm(e))
-        return None
-    return env, atom_of
+
+def canon(v):
+    return v.canon() if isinstance(v, P) else repr(v)
+
+
+def eqv(a, b):
+    try:
+        return as_p(a) == as_p(b)
+    except Exception:
+        return a == b
+
+
+def tensor_atoms(name, rank):
+    """atoms describing a symbolic tensor `name` of the given rank"""
+    at = {'%s.ndim' % name: rank, '%s.data.ndim' % name: rank, 'len(%s.shape)' % name: rank, 'len(%s.data.shape)' % name: rank}
+    return at
+
+
+def fans(name, rank):
+    s0, s1 = P.atom('%s.shape[0]' % name), P.atom('%s.shape[1]' % name)
+    rf = P.atom('prod(%s.shape[2:])' % name) if rank > 2 else P.const(1)
+    return s1 * rf, s0 * rf
+
+
+def sampler_hook(record, gain_atom=True):
+    def hook(pe, name, e, args, kw, env, func, depth):
+        if name in (IMOD + '.uniform_', IMOD + '.normal_'):
+            callee = pe.model.funcs[name]
+            record.append((name.split('.')[-1], bind(callee.pos_params, args, kw), e))
+            return args[0] if args else kw.get(callee.pos_params[0])
+        if gain_atom and name == IMOD + '.calculate_gain':
+            record.append(('calculate_gain', bind(pe.model.funcs[name].pos_params, args, kw), e))
+            return P.atom('gain')
+        return NotImplemented
+    return hook
 
 
 def check(model, R, tier):
-    R.rule('C15.SCALE', 'the value reaching each sampler parameter has the normal form of the documented formula in the role the sampler gives it (bounds for uniform_, STANDARD DEVIATION for normal_)', floor=10)
-    R.rule('C15.SAMPLER', 'uniform_/normal_ hand (a, b) / (mean, std) to np.random.uniform(low, high) / np.random.normal(loc, scale) in those roles, with shape tensor.shape, cast to tensor.dtype', floor=2)
+    R.rule('C15.SCALE', 'the term reaching each sampler parameter has the normal form of the documented formula in the role the sampler gives it (bounds for uniform_, STANDARD DEVIATION for normal_), for matrix and conv-shaped tensors', floor=20)
+    R.rule('C15.SAMPLER', 'uniform_/normal_ hand (a, b) / (mean, std) to np.random.uniform(low, high) / np.random.normal(loc, scale) in those roles, with size tensor.shape, cast to tensor.dtype', floor=2)
     R.rule('C15.FAN', 'fan_in = shape[1]*prod(shape[2:]), fan_out = shape[0]*prod(shape[2:]); rank < 2 raises', floor=3)
-    R.rule('C15.GAIN', 'calculate_gain maps each documented non-linearity to the documented value and raises otherwise; kaiming selects fan[mode] and passes the slope', floor=9)
-    R.rule('C15.OBJECT', 'every filler returns its argument, writes only .data of it (new array of tensor.shape cast to tensor.dtype) and nothing else', floor=5)
-    fan_in, fan_out, gain = P.atom('fan_in'), P.atom('fan_out'), P.atom('gain')
-    # ---------------------------------------------------------------- SAMPLER roles
-    samplers = {'uniform_': ('numpy.random.uniform', ('low', 'high', 'size'), ('a', 'b')), 'normal_': ('numpy.random.normal', ('loc', 'scale', 'size'), ('mean', 'std'))}
-    for name, (npf, sig, params) in samplers.items():
-        f = model.func('%s.%s' % (IMOD, name))
-        cfg = CFG(f.node)
-        calls = [c for c in body_walk(f.node) if isinstance(c, ast.Call) and model.resolve(f.mod, c.func) == npf and cfg.reachable(_stmt(f, c))]
-        ok = len(calls) == 1
-        why = 'expected one reachable %s call' % npf
-        if ok:
-            c = calls[0]
-            b = {}
-            for i, a in enumerate(c.args):
-                b[sig[i]] = a
-            for k in c.keywords:
-                b[k.arg] = k.value
-            t = f.pos_params[0]
-            ok = norm(b.get(sig[0])) == params[0] and norm(b.get(sig[1])) == params[1] and norm(b.get('size')) in ('%s.shape' % t, '%s.data.shape' % t)
-            why = '%s must receive (%s, %s, %s.shape) as (%s), got %s' % (npf, params[0], params[1], t, ', '.join(sig), {k: norm(v) for k, v in b.items()})
-        R.ob('C15.SAMPLER', f.qualname, norm(calls[0])[:90] if calls else 'no call', ok, why, f.loc)
-    # ---------------------------------------------------------------- SCALE
-    def scale_of(fname, call_name, roles, want, pre_env=None):
-        f = model.func('%s.%s' % (IMOD, fname) if '.' not in fname else fname)
-        env, atom_of = local_terms(model, f, pre_env)
-        for n in sorted([x for x in body_walk(f.node) if isinstance(x, ast.Assign)], key=lambda x: x.lineno):
-            if isinstance(n, ast.Assign) and len(n.targets) == 1:
-                t = n.targets[0]
-                if isinstance(t, ast.Name):
-                    try:
-                        env[t.id] = TermBuilder(env, atom_of, model, f.mod, _on_call(model, f, env)).build(n.value)
-                    except Unsupported:
-                        pass
-                elif isinstance(t, ast.Tuple) and isinstance(n.value, ast.Call) and (model.resolve(f.mod, n.value.func) or '').endswith('_calculate_fan_in_and_fan_out'):
-                    names = [norm(e) for e in t.elts]
-                    for nm, at in zip(names, (fan_in, fan_out)):
-                        if nm != '_':
-                            env[nm] = at
-        rets = [n for n in body_walk(f.node) if isinstance(n, (ast.Return, ast.Expr)) and isinstance(n.value, ast.Call) and (model.resolve(f.mod, n.value.func) or '').endswith('.' + call_name)]
-        out = []
-        for r in rets:
-            callee = model.func('%s.%s' % (IMOD, call_name))
-            b, _ = bind_call(r.value, callee)
-            got = {}
-            for role in roles:
-                try:
-                    got[role] = TermBuilder(env, atom_of, model, f.mod, _on_call(model, f, env)).build(b[role]) if role in b else None
-                except Unsupported as u:
-                    got[role] = 'unsupported: %s' % u
-            out.append((r, got))
-        return f, out
-
-    docs = [
-        ('xavier_uniform_', 'uniform_', ('a', 'b'), lambda: {'a': -(gain * sqrt(6 / (fan_in + fan_out))), 'b': gain * sqrt(6 / (fan_in + fan_out))}, 'U(-a, a), a = gain*sqrt(6/(fan_in+fan_out))'),
-        ('xavier_normal_', 'normal_', ('mean', 'std'), lambda: {'mean': P.const(0), 'std': gain * sqrt(2 / (fan_in + fan_out))}, 'N(0, std^2), std = gain*sqrt(2/(fan_in+fan_out))'),
-        ('kaiming_uniform_', 'uniform_', ('a', 'b'), lambda: {'a': -(gain * sqrt(3 / P.atom('fan[mode]'))), 'b': gain * sqrt(3 / P.atom('fan[mode]'))}, 'U(-bound, bound), bound = gain*sqrt(3/fan_mode)'),
-        ('kaiming_normal_', 'normal_', ('mean', 'std'), lambda: {'mean': P.const(0), 'std': gain / sqrt(P.atom('fan[mode]'))}, 'N(0, std^2), std = gain/sqrt(fan_mode)'),
-    ]
-    for fname, callee, roles, want, doc in docs:
-        pre = {'fan': {}, }
-        f, out = scale_of(fname, callee, roles, want, {'gain': gain} if fname.startswith('kaiming') else {'gain': gain})
-        if len(out) != 1:
-            R.incomplete_at('C15.SCALE', f.qualname, 'expected one call of %s, found %d' % (callee, len(out)))
-            continue
-        r, got = out[0]
-        w = want()
-        for role in roles:
-            g = got[role]
-            ok = isinstance(g, P) and g == w[role]
-            R.ob('C15.SCALE', f.qualname, '%s(%s=%s)' % (callee, role, g.canon() if isinstance(g, P) else g), ok,
-                 'documented: %s; the %s parameter of %s must be %s' % (doc, role, callee, w[role].canon()), '%s:%d' % (f.mod.relpath, r.lineno))
-    # layers
-    for cls in ('Linear', 'Conv1d', 'Conv2d'):
-        q = 'synapgrad.nn.layers.%s.reset_parameters' % cls
-        f = model.func(q)
-        env, atom_of = local_terms(model, f)
-        for n in body_walk(f.node):
-            if isinstance(n, ast.Assign) and len(n.targets) == 1:
-                t = n.targets[0]
-                if isinstance(t, ast.Tuple) and isinstance(n.value, ast.Call) and (model.resolve(f.mod, n.value.func) or '').endswith('_calculate_fan_in_and_fan_out'):
-                    ok_arg = n.value.args and norm(n.value.args[0]) == 'self.weight'
-                    R.ob('C15.SCALE', q, norm(n), bool(ok_arg), 'fan_in must be computed from the layer\'s weight', '%s:%d' % (f.mod.relpath, n.lineno))
-                    for nm, at in zip([norm(e) for e in t.elts], (fan_in, fan_out)):
-                        env[nm] = at
-                elif isinstance(t, ast.Name):
-                    v = n.value
-                    if isinstance(v, ast.IfExp):        # 1/sqrt(fan_in) if fan_in > 0 else 0
-                        v = v.body
-                    try:
-                        env[t.id] = TermBuilder(env, atom_of, model, f.mod).build(v)
-                    except Unsupported:
-                        pass
-        calls = [c for c in body_walk(f.node) if isinstance(c, ast.Call) and (model.resolve(f.mod, c.func) or '') == IMOD + '.uniform_']
-        targets = sorted(norm(c.args[0]) for c in calls if c.args)
-        R.ob('C15.SCALE', q, 'uniform_ targets %s' % targets, targets == ['self.bias', 'self.weight'], 'weight and bias must both be initialised', f.loc)
-        for c in calls:
-            b, _ = bind_call(c, model.func(IMOD + '.uniform_'))
-            try:
-                a = TermBuilder(env, atom_of, model, f.mod).build(b['a'])
-                bb = TermBuilder(env, atom_of, model, f.mod).build(b['b'])
-                ok = a == -(1 / sqrt(fan_in)) and bb == 1 / sqrt(fan_in)
-                got = '(%s, %s)' % (a.canon(), bb.canon())
-            except (Unsupported, KeyError) as u:
-                ok, got = False, str(u)
-            R.ob('C15.SCALE', q, 'uniform_(%s, %s)' % (norm(c.args[0]), got), ok, 'layers start from U(-1/sqrt(fan_in), 1/sqrt(fan_in))', '%s:%d' % (f.mod.relpath, c.lineno))
+    R.rule('C15.GAIN', 'calculate_gain maps each documented non-linearity to the documented value and raises otherwise; kaiming passes (nonlinearity, a) and selects fan_in / fan_out by mode, rejecting other modes', floor=12)
+    R.rule('C15.OBJECT', 'every filler returns its argument and writes only .data of it (new array of tensor.shape cast to tensor.dtype)', floor=9)
+    gain = P.atom('gain')
+    T = P.atom('tensor')
     # ---------------------------------------------------------------- FAN
     ff = model.func(IMOD + '._calculate_fan_in_and_fan_out')
-    t = ff.pos_params[0]
-    cfg = CFG(ff.node)
-    guards = [n for n in body_walk(ff.node) if isinstance(n, ast.If) and any(isinstance(x, ast.Raise) for x in n.body)]
-    rets = [n for n in body_walk(ff.node) if isinstance(n, ast.Return)]
-    ok = False
-    if guards and rets:
-        tt = norm(guards[0].test)
-        ok = tt in ('dimensions < 2', '%s.ndim < 2' % t, 'len(%s.shape) < 2' % t) and all(cfg.dominates(guards[0], r) for r in rets)
-    R.ob('C15.FAN', ff.qualname, 'rank < 2 rejected', ok, 'fan in/out are undefined for tensors with fewer than 2 dimensions', ff.loc)
-    env = {}
-    def fan_atom(e):
-        tx = norm(e)
-        if tx == '%s.shape[1]' % t: return P.atom('s1')
-        if tx == '%s.shape[0]' % t: return P.atom('s0')
-        if isinstance(e, (ast.Attribute, ast.Subscript)): return P.atom(tx)
-        return None
-    def fan_call(tb, name, e):
-        if name in ('numpy.prod', 'math.prod') and norm(e.args[0]) == '%s.shape[2:]' % t:
-            return P.atom('rf')
-        return None
-    for n in sorted([x for x in body_walk(ff.node) if isinstance(x, ast.Assign)], key=lambda x: x.lineno):
-        if isinstance(n, ast.Assign) and isinstance(n.targets[0], ast.Name):
-            try:
-                v = TermBuilder(env, fan_atom, model, ff.mod, fan_call).build(n.value)
-                # receptive_field_size = 1 then overwritten under `dimensions > 2`: the general value is prod(shape[2:]) (empty product = 1)
-                if n.targets[0].id in env and env[n.targets[0].id] == P.const(1) and v == P.atom('rf'):
-                    env[n.targets[0].id] = v
-                elif n.targets[0].id not in env or env[n.targets[0].id] == P.const(1):
-                    env[n.targets[0].id] = v
-            except Unsupported:
-                pass
-    ok = False
-    if len(rets) == 1 and isinstance(rets[0].value, ast.Tuple) and len(rets[0].value.elts) == 2:
-        try:
-            a = TermBuilder(env, fan_atom, model, ff.mod, fan_call).build(rets[0].value.elts[0])
-            b = TermBuilder(env, fan_atom, model, ff.mod, fan_call).build(rets[0].value.elts[1])
-            ok = a == P.atom('s1') * P.atom('rf') and b == P.atom('s0') * P.atom('rf')
-            R.ob('C15.FAN', ff.qualname, 'fan_in = %s ; fan_out = %s' % (a.canon(), b.canon()), ok, 'fan_in = shape[1]*prod(shape[2:]), fan_out = shape[0]*prod(shape[2:])', ff.loc)
-        except Unsupported as u:
-            R.incomplete_at('C15.FAN', ff.qualname, str(u))
-    else:
-        R.incomplete_at('C15.FAN', ff.qualname, 'unrecognised return')
-    rf_guard = [n for n in body_walk(ff.node) if isinstance(n, ast.If) and norm(n.test) in ('dimensions > 2', '%s.ndim > 2' % t)]
-    R.ob('C15.FAN', ff.qualname, 'receptive field only for rank > 2', len(rf_guard) <= 1, '', ff.loc)
+    tp = ff.pos_params[0]
+    for rank in (1, 2, 3, 4):
+        pe = PE(model, atoms=tensor_atoms(tp, rank))
+        outs = pe.paths(ff, {tp: P.atom(tp)})
+        if rank < 2:
+            R.ob('C15.FAN', ff.qualname, 'rank %d -> %s' % (rank, [o.kind for o in outs]), all(o.kind == 'raise' for o in outs) and bool(outs), 'fan in/out are undefined for tensors with fewer than 2 dimensions: must raise', ff.loc)
+        else:
+            fi, fo = fans(tp, rank)
+            ok = len(outs) == 1 and outs[0].kind == 'return' and isinstance(outs[0].value, (tuple, list)) and len(outs[0].value) == 2 and eqv(outs[0].value[0], fi) and eqv(outs[0].value[1], fo)
+            R.ob('C15.FAN', ff.qualname, 'rank %d -> %s' % (rank, [canon(v) for v in outs[0].value] if outs and isinstance(outs[0].value, (tuple, list)) else outs), ok,
+                 'fan_in = shape[1]*prod(shape[2:]) = %s, fan_out = shape[0]*prod(shape[2:]) = %s' % (fi.canon(), fo.canon()), ff.loc)
     # ---------------------------------------------------------------- GAIN
-    check_gain(model, R)
-    for fname in ('kaiming_uniform_', 'kaiming_normal_'):
+    cg = model.func(IMOD + '.calculate_gain')
+    table = {'linear': P.const(1), 'conv1d': P.const(1), 'conv2d': P.const(1), 'sigmoid': P.const(1), 'tanh': P.const(Fraction(5, 3)), 'relu': sqrt(P.const(2)), 'selu': P.const(Fraction(3, 4))}
+    for nl, want in table.items():
+        outs = PE(model).paths(cg, {cg.pos_params[0]: nl})
+        ok = bool(outs) and all(o.kind == 'return' and eqv(o.value, want) for o in outs)
+        R.ob('C15.GAIN', cg.qualname, '%s -> %s' % (nl, [canon(o.value) for o in outs]), ok, 'documented gain for %s is %s' % (nl, want.canon()), cg.loc)
+    slope = P.atom('slope')
+    outs = PE(model, preds={'slope is None': False, 'slope is not None': True}).paths(cg, {cg.pos_params[0]: 'leaky_relu', cg.pos_params[1]: slope})
+    rets = [o for o in outs if o.kind == 'return']
+    ok = bool(rets) and all(eqv(o.value, sqrt(2 / (1 + slope * slope))) for o in rets)
+    R.ob('C15.GAIN', cg.qualname, 'leaky_relu(slope) -> %s' % sorted({canon(o.value) for o in rets}), ok, 'documented: sqrt(2 / (1 + negative_slope^2))', cg.loc)
+    outs = PE(model).paths(cg, {cg.pos_params[0]: 'leaky_relu', cg.pos_params[1]: None})
+    d = Fraction(1, 100)
+    ok = len(outs) == 1 and outs[0].kind == 'return' and eqv(outs[0].value, sqrt(2 / (1 + P.const(d) * P.const(d))))
+    R.ob('C15.GAIN', cg.qualname, 'leaky_relu(None) -> default slope 0.01', ok, 'the default negative slope is 0.01', cg.loc)
+    outs = PE(model).paths(cg, {cg.pos_params[0]: 'leaky_relu', cg.pos_params[1]: True})
+    R.ob('C15.GAIN', cg.qualname, 'leaky_relu(True) -> %s' % [o.kind for o in outs], bool(outs) and all(o.kind == 'raise' for o in outs), 'a bool is not a valid slope', cg.loc)
+    outs = PE(model).paths(cg, {cg.pos_params[0]: 'softplus'})
+    R.ob('C15.GAIN', cg.qualname, 'unknown nonlinearity -> %s' % [o.kind for o in outs], bool(outs) and all(o.kind == 'raise' for o in outs), 'an unsupported nonlinearity must be rejected', cg.loc)
+    # ---------------------------------------------------------------- SCALE
+    docs = {
+        'xavier_uniform_': ('uniform_', lambda fi, fo, g: {'a': -(g * sqrt(6 / (fi + fo))), 'b': g * sqrt(6 / (fi + fo))}, 'U(-a, a), a = gain*sqrt(6/(fan_in+fan_out))'),
+        'xavier_normal_': ('normal_', lambda fi, fo, g: {'mean': P.const(0), 'std': g * sqrt(2 / (fi + fo))}, 'N(0, std^2), std = gain*sqrt(2/(fan_in+fan_out))'),
+    }
+    for fname, (callee, want, doc) in docs.items():
         f = model.func('%s.%s' % (IMOD, fname))
-        src = {norm(n) for n in body_walk(f.node) if isinstance(n, (ast.Assign, ast.If))}
-        gains = [n for n in body_walk(f.node) if isinstance(n, ast.Assign) and isinstance(n.value, ast.Call) and (model.resolve(f.mod, n.value.func) or '').endswith('calculate_gain')]
-        ok = len(gains) == 1 and [norm(a) for a in gains[0].value.args] == ['nonlinearity', 'a']
-        R.ob('C15.GAIN', f.qualname, norm(gains[0]) if gains else 'no gain', ok, 'kaiming must pass (nonlinearity, a) to calculate_gain', f.loc)
-        lst = [n for n in body_walk(f.node) if isinstance(n, ast.Assign) and isinstance(n.value, ast.List)]
-        okm = any(norm(n.value) == "['fan_in', 'fan_out']" for n in lst) and any(isinstance(n, ast.Assign) and norm(n.targets[0]) == 'mode' and '.index(mode)' in norm(n.value) for n in body_walk(f.node))
-        fanb = [n for n in body_walk(f.node) if isinstance(n, ast.Assign) and norm(n.targets[0]) == 'fan' and isinstance(n.value, ast.Call) and norm(n.value.args[0]) == f.pos_params[0]]
-        raises = [n for n in body_walk(f.node) if isinstance(n, ast.If) and 'mode in' in norm(n.test) and n.orelse and any(isinstance(x, ast.Raise) for x in n.orelse)]
-        R.ob('C15.GAIN', f.qualname, 'fan[mode] with fan_in -> 0, fan_out -> 1, unknown mode raises', bool(okm and fanb and raises),
-             'mode must select fan_in (index 0) or fan_out (index 1) of the tensor\'s fans and reject anything else', f.loc)
-    # ---------------------------------------------------------------- OBJECT
+        tp = f.pos_params[0]
+        for rank in (2, 4):
+            rec = []
+            pe = PE(model, atoms=tensor_atoms(tp, rank), call_hook=sampler_hook(rec))
+            outs = pe.paths(f, {tp: P.atom(tp), 'gain': gain})
+            fi, fo = fans(tp, rank)
+            _judge(R, f, fname, rank, '', outs, rec, callee, want(fi, fo, gain), doc, tp)
+    kdocs = {
+        'kaiming_uniform_': ('uniform_', lambda fan, g: {'a': -(g * sqrt(3 / fan)), 'b': g * sqrt(3 / fan)}, 'U(-bound, bound), bound = gain*sqrt(3/fan_mode)'),
+        'kaiming_normal_': ('normal_', lambda fan, g: {'mean': P.const(0), 'std': g / sqrt(fan)}, 'N(0, std^2), std = gain/sqrt(fan_mode)'),
+    }
+    for fname, (callee, want, doc) in kdocs.items():
+        f = model.func('%s.%s' % (IMOD, fname))
+        tp = f.pos_params[0]
+        for mode in ('fan_in', 'fan_out'):
+            for rank in (2, 4):
+                rec = []
+                pe = PE(model, atoms=tensor_atoms(tp, rank), call_hook=sampler_hook(rec))
+                outs = pe.paths(f, {tp: P.atom(tp), 'mode': mode, 'a': P.atom('slope'), 'nonlinearity': P.atom('nl')})
+                fi, fo = fans(tp, rank)
+                _judge(R, f, fname, rank, mode, outs, rec, callee, want(fi if mode == 'fan_in' else fo, gain), doc, tp)
+                if rank == 2:
+                    g = [r for r in rec if r[0] == 'calculate_gain']
+                    ok = len(g) >= 1 and all(eqv(x[1].get('nonlinearity'), P.atom('nl')) and eqv(x[1].get('param'), P.atom('slope')) for x in g)
+                    R.ob('C15.GAIN', f.qualname, '%s: calculate_gain(%s)' % (mode, [{k: canon(v) for k, v in x[1].items()} for x in g]), ok, 'kaiming must pass (nonlinearity, a) to calculate_gain', f.loc)
+        outs = PE(model, atoms=tensor_atoms(tp, 2), call_hook=sampler_hook([])).paths(f, {tp: P.atom(tp), 'mode': 'fan_avg'})
+        R.ob('C15.GAIN', f.qualname, 'mode=fan_avg -> %s' % [o.kind for o in outs], bool(outs) and all(o.kind == 'raise' for o in outs), 'an unknown mode must be rejected', f.loc)
+    # layers: U(-1/sqrt(fan_in), 1/sqrt(fan_in)) for weight and bias
+    for cls, rank in (('Linear', 2), ('Conv1d', 3), ('Conv2d', 4)):
+        q = 'synapgrad.nn.layers.%s.reset_parameters' % cls
+        f = model.func(q)
+        rec = []
+        at = tensor_atoms('self.weight', rank)
+        pe = PE(model, atoms=at, call_hook=sampler_hook(rec), preds={})
+        outs = pe.paths(f, {'self': Opaque('@self')})
+        fi, fo = fans('self.weight', rank)
+        good = [o for o in outs if o.kind in ('fall', 'return') and all(v for t, v in o.conds if 'fan_in' in t or '> 0' in t)]
+        # take the paths where fan_in > 0 and the bias exists
+        seen = False
+        for o in outs:
+            calls = [(nm, a, kw) for nm, a, kw, node in o.calls if nm in (IMOD + '.uniform_',)]
+            if len(calls) != 2:
+                continue
+            if not all(v for t, v in o.conds if '> 0' in t):
+                continue
+            seen = True
+            callee = model.funcs[IMOD + '.uniform_']
+            for nm, a, kw in calls:
+                b = bind(callee.pos_params, a, kw)
+                tgt = canon(b.get(callee.pos_params[0]))
+                ok = eqv(b.get('a'), -(1 / sqrt(fi))) and eqv(b.get('b'), 1 / sqrt(fi))
+                R.ob('C15.SCALE', q, 'uniform_(%s, %s, %s)' % (tgt, canon(b.get('a')), canon(b.get('b'))), ok, 'layers start from U(-1/sqrt(fan_in), 1/sqrt(fan_in)) with fan_in = %s' % fi.canon(), f.loc)
+            tg = sorted(canon(bind(callee.pos_params, a, kw).get(callee.pos_params[0])) for nm, a, kw in calls)
+            R.ob('C15.SCALE', q, 'uniform_ targets %s' % tg, tg == ['self.bias', 'self.weight'], 'weight and bias must both be initialised', f.loc)
+            break
+        if not seen:
+            R.ob('C15.SCALE', q, 'path initialising weight and bias', False, 'no path calls uniform_ on both weight and bias (paths: %s)' % [(o.kind, o.conds) for o in outs][:3], f.loc)
+    # ---------------------------------------------------------------- SAMPLER + OBJECT
     for name in FILLERS:
         f = model.func('%s.%s' % (IMOD, name))
-        t = f.pos_params[0]
-        cfg = CFG(f.node)
-        stores = [n for n in body_walk(f.node) if isinstance(n, (ast.Assign, ast.AugAssign)) and cfg.reachable(n)]
-        attr_stores = [n for n in stores if any(isinstance(x, (ast.Attribute, ast.Subscript)) for x in ([n.target] if isinstance(n, ast.AugAssign) else n.targets))]
-        ok = len(attr_stores) == 1 and isinstance(attr_stores[0], ast.Assign) and norm(attr_stores[0].targets[0]) == '%s.data' % t
-        if ok:
-            v = attr_stores[0].value
-            ok = isinstance(v, ast.Call) and isinstance(v.func, ast.Attribute) and v.func.attr == 'astype' and v.args and norm(v.args[0]) in ('%s.dtype' % t, '%s.data.dtype' % t) \
-                and ('%s.shape' % t) in norm(v.func.value)
-        rets = [n for n in body_walk(f.node) if isinstance(n, ast.Return) and cfg.reachable(n)]
-        ok = ok and len(rets) == 1 and norm(rets[0].value) == t
-        R.ob('C15.OBJECT', f.qualname, norm(attr_stores[0]) if attr_stores else 'no store', ok,
+        tp = f.pos_params[0]
+        pe = PE(model, atoms={})
+        args = {tp: P.atom(tp)}
+        for p in f.pos_params[1:]:
+            args[p] = P.atom(p)
+        outs = pe.paths(f, args)
+        ok = len(outs) == 1 and outs[0].kind == 'return' and eqv(outs[0].value, P.atom(tp))
+        o = outs[0] if outs else None
+        keys = [k for k, v, st in o.stores] if o else []
+        ok = ok and keys == ['%s.data' % tp]
+        astype = [c for c in (o.calls if o else []) if str(c[0]).endswith('.astype') or str(c[0]).endswith('astype')]
+        ok_cast = any(a and eqv(a[0], P.atom('%s.dtype' % tp)) or eqv(kw.get('dtype'), P.atom('%s.dtype' % tp)) for nm, a, kw, node in astype)
+        shape_ok = any(any(eqv(x, P.atom('%s.shape' % tp)) for x in list(a) + list(kw.values())) for nm, a, kw, node in (o.calls if o else []) if str(nm).startswith('numpy.'))
+        R.ob('C15.OBJECT', f.qualname, 'stores %s, returns %s, cast %s, shape %s' % (keys, canon(o.value) if o else None, ok_cast, shape_ok), ok and ok_cast and shape_ok,
              'a filler must only replace tensor.data by a new array of tensor.shape cast to tensor.dtype and return the same tensor object', f.loc)
+        if name in ('uniform_', 'normal_'):
+            npf = 'numpy.random.uniform' if name == 'uniform_' else 'numpy.random.normal'
+            cs = [(a, kw) for nm, a, kw, node in o.calls if nm == npf] if o else []
+            okc = len(cs) == 1
+            got = None
+            if okc:
+                got = bind(NP_SAMPLERS[npf], cs[0][0], cs[0][1])
+                sig = NP_SAMPLERS[npf]
+                okc = eqv(got.get(sig[0]), P.atom(f.pos_params[1])) and eqv(got.get(sig[1]), P.atom(f.pos_params[2])) and eqv(got.get('size'), P.atom('%s.shape' % tp))
+            R.ob('C15.SAMPLER', f.qualname, '%s(%s)' % (npf, {k: canon(v) for k, v in (got or {}).items()}), okc,
+                 '%s must receive (%s, %s, %s.shape) as (%s)' % (npf, f.pos_params[1], f.pos_params[2], tp, ', '.join(NP_SAMPLERS[npf])), f.loc)
     for name in ('xavier_uniform_', 'xavier_normal_', 'kaiming_uniform_', 'kaiming_normal_'):
         f = model.func('%s.%s' % (IMOD, name))
-        st = [n for n in body_walk(f.node) if isinstance(n, (ast.Assign, ast.AugAssign)) and any(isinstance(x, (ast.Attribute, ast.Subscript)) for x in ([n.target] if isinstance(n, ast.AugAssign) else n.targets))]
-        rets = [n for n in body_walk(f.node) if isinstance(n, ast.Return)]
-        ok = not st and len(rets) == 1 and isinstance(rets[0].value, ast.Call) and rets[0].value.args and norm(rets[0].value.args[0]) == f.pos_params[0]
-        R.ob('C15.OBJECT', f.qualname, 'delegates to a filler on its own argument', ok, 'derived initialisers must fill (and return) the tensor they were given', f.loc)
+        tp = f.pos_params[0]
+        rec = []
+        outs = PE(model, atoms=tensor_atoms(tp, 2), call_hook=sampler_hook(rec)).paths(f, {tp: P.atom(tp)})
+        rets = [o for o in outs if o.kind == 'return']
+        ok = bool(rets) and all(eqv(o.value, P.atom(tp)) and not o.stores for o in rets)
+        R.ob('C15.OBJECT', f.qualname, 'delegates to a filler on its own argument and returns it', ok, 'derived initialisers must fill (and return) the tensor they were given, writing nothing else', f.loc)
     return dict(
-        explanation='The distribution of the draws is NumPy\'s; decided here is which scale the repo hands to which sampler parameter and what it does to the tensor object: polynomial normal forms '
-                    '(rational exponents) of the bounds / standard deviations reaching uniform_(a, b) and normal_(mean, std) equal the documented formulas in the right role (a variance where a standard '
-                    'deviation is expected is a mismatch), fan computation, gain table, mode selection, and the object effects of every filler. Sample statistics of finite draws are not decided.',
+        explanation='The distribution of the draws is NumPy\'s; decided here is which scale the repository hands to which sampler parameter and what it does to the tensor object. The initialisers are partially evaluated on a symbolic tensor '
+                    '(ranks 2 and 4, both kaiming modes); the terms reaching uniform_(a, b) / normal_(mean, std) and np.random.uniform(low, high, size) / np.random.normal(loc, scale, size) are compared in normal form (rational exponents) with the '
+                    'documented formulas - a variance where a standard deviation is expected is a mismatch; fan computation for ranks 1-4, the gain table, mode selection and the memory effects of every filler are enumerated the same way. '
+                    'Sample statistics of finite draws are not decided.',
         assumptions=['np.random.uniform(low, high, size) / np.random.normal(loc, scale, size) parameter roles', 'documented formulas as quoted in the property statement'],
-        technique='forward substitution to a polynomial normal form with rational exponents + call-binding role check + effect scan')
+        technique='partial evaluation with path enumeration + polynomial normal form with rational exponents + intercepted call-site role check')
 
 
-def _stmt(f, node):
-    for s in body_walk(f.node):
-        if isinstance(s, ast.stmt) and not isinstance(s, (ast.If, ast.For, ast.While, ast.With, ast.Try, ast.FunctionDef)):
-            if any(n is node for n in ast.walk(s)):
-                return s
-    return f.node.body[0]
-
-
-def _on_call(model, f, env):
-    def on_call(tb, name, e):
-        if name and name.endswith('calculate_gain'):
-            return P.atom('gain')
-        return None
-    return on_call
-
-
-GAIN_TABLE = {'linear': P.const(1), 'conv1d': P.const(1), 'conv2d': P.const(1), 'sigmoid': P.const(1), 'tanh': P.const(Fraction(5, 3)), 'relu': sqrt(P.const(2)),
-              'selu': P.const(Fraction(3, 4))}
-
-
-def check_gain(model, R):
-    f = model.func(IMOD + '.calculate_gain')
-    # walk the if/elif chain: collect (set of literals for the branch) -> return expression
-    found = {}
-    fall_raises = False
-    lists = {n.targets[0].id: [e.value for e in n.value.elts] for n in body_walk(f.node) if isinstance(n, ast.Assign) and isinstance(n.targets[0], ast.Name) and isinstance(n.value, ast.List)
-             and all(isinstance(e, ast.Constant) for e in n.value.elts)}
-
-    def lits(test):
-        out = []
-        for c in ([test] if not isinstance(test, ast.BoolOp) else test.values):
-            if isinstance(c, ast.Compare) and len(c.ops) == 1 and norm(c.left) == f.pos_params[0]:
-                if isinstance(c.ops[0], ast.Eq) and isinstance(c.comparators[0], ast.Constant):
-                    out.append(c.comparators[0].value)
-                elif isinstance(c.ops[0], ast.In):
-                    k = c.comparators[0]
-                    if isinstance(k, ast.Name) and k.id in lists:
-                        out += lists[k.id]
-                    elif isinstance(k, (ast.List, ast.Tuple)):
-                        out += [e.value for e in k.elts if isinstance(e, ast.Constant)]
-        return out
-    top = [n for n in f.node.body if isinstance(n, ast.If)]
-    cur = top[0] if top else None
-    while cur is not None:
-        ls = lits(cur.test)
-        rets = [n for n in cur.body if isinstance(n, ast.Return)]
-        for l in ls:
-            found[l] = (cur, rets[-1].value if rets else None)
-        if len(cur.orelse) == 1 and isinstance(cur.orelse[0], ast.If):
-            cur = cur.orelse[0]
-        else:
-            fall_raises = any(isinstance(x, ast.Raise) for x in cur.orelse)
-            cur = None
-    for name, want in GAIN_TABLE.items():
-        br = found.get(name)
-        ok = False
-        got = None
-        if br and br[1] is not None:
-            try:
-                got = TermBuilder({}, None, model, f.mod).build(br[1])
-                ok = got == want
-            except Unsupported as u:
-                got = str(u)
-        R.ob('C15.GAIN', f.qualname, '%s -> %s' % (name, got.canon() if isinstance(got, P) else got), ok, 'documented gain for %s is %s' % (name, want.canon()), f.loc)
-    br = found.get('leaky_relu')
-    ok = False
-    if br:
-        body_nodes = [n for st in br[0].body for n in ast.walk(st)]
-        rets = [n for n in body_nodes if isinstance(n, ast.Return)]
-        s = P.atom('negative_slope')
-        try:
-            got = TermBuilder({}, None, model, f.mod).build(rets[-1].value) if rets else None
-            ok = got == sqrt(2 / (1 + s * s))
-            default = [n for n in body_nodes if isinstance(n, ast.Assign) and norm(n.targets[0]) == 'negative_slope' and isinstance(n.value, ast.Constant)]
-            ok = ok and any(n.value.value == 0.01 for n in default) and any(isinstance(n, ast.Assign) and norm(n.targets[0]) == 'negative_slope' and norm(n.value) == f.pos_params[1] for n in body_nodes)
-        except Unsupported:
-            ok = False
-    R.ob('C15.GAIN', f.qualname, 'leaky_relu -> sqrt(2/(1+slope^2)), slope = param or 0.01', ok, 'documented leaky_relu gain', f.loc)
-    R.ob('C15.GAIN', f.qualname, 'unknown nonlinearity raises', fall_raises, 'an unsupported nonlinearity must be rejected', f.loc)
+def _judge(R, f, fname, rank, mode, outs, rec, callee, want, doc, tp):
+    rets = [o for o in outs if o.kind == 'return']
+    calls = [r for r in rec if r[0] == callee]
+    label = '%s rank %d %s' % (fname, rank, mode)
+    if not rets or not calls:
+        R.ob('C15.SCALE', f.qualname, label, False, 'no path reaches %s (paths: %s)' % (callee, [(o.kind, o.value) for o in outs][:3]), f.loc)
+        return
+    b = calls[-1][1]
+    for role, w in want.items():
+        g = b.get(role)
+        R.ob('C15.SCALE', f.qualname, '%s: %s(%s=%s)' % (label, callee, role, canon(g)), g is not None and eqv(g, w),
+             'documented: %s; the %s parameter of %s must be %s' % (doc, role, callee, w.canon()), f.loc)
+    t0 = b.get(tp, b.get('tensor'))
+    R.ob('C15.SCALE', f.qualname, '%s: fills %s' % (label, canon(t0)), eqv(t0, P.atom(tp)), 'the sampler must be applied to the tensor that was passed in', f.loc)
